@@ -158,6 +158,7 @@ func sigSet(conds []string, re *regexp.Regexp) []string {
 }
 
 func r3clone(c *core.Ctx) {
+	cvDecided, intDecided := r3agree(c)
 	const R = "R3.clone"
 	c.Rule(R, "encoder/decoder sibling primitives agree in their cloned guard chains and loops")
 	pair := func(key, encName, decName string, re *regexp.Regexp, what string, minN int) {
@@ -168,7 +169,7 @@ func r3clone(c *core.Ctx) {
 			c.SoftUndecided("%s: neither %s nor %s contains the expected %s (clone not recognised)", key, encName, decName, what)
 			return
 		}
-		if len(e) < minN || len(d) < minN {
+		if (len(e) < minN || len(d) < minN) && (len(e) == 0 || len(d) == 0) {
 			// one side was restructured (helper, closed form): the two can no longer be compared as clones
 			c.SoftUndecided("%s: only one of %s (%v) and %s (%v) still contains the expected %s — the other computes it in a form the rule cannot compare", key, encName, e, decName, d, what)
 			return
@@ -176,9 +177,16 @@ func r3clone(c *core.Ctx) {
 		c.Check(strings.Join(e, " ") == strings.Join(d, " "), R, key, enc.Pos(), strings.Join(e, " "), "%s: the encoder (%s) uses %v but the decoder (%s) uses %v — a value encoded on one side is decoded differently on the other", what, encName, e, decName, d)
 	}
 	pair("aper:constraint-value-guards", "perRawBitData.appendConstraintValue", "perBitData.parseConstraintValue", regexp.MustCompile(`^(\(p1[<>=!]+-?\d+\))$`), "constrained whole number range guards", 3)
-	pair("aper:constraint-value-bit-width", "perRawBitData.appendConstraintValue", "perBitData.parseConstraintValue", regexp.MustCompile(`^(\(iv<=8\)|\(\(1<<iv\)>=p1\))$`), "bit-field width loop (1..8 bits, 2^i >= range)", 2)
-	pair("aper:integer-octets-of-range", "perRawBitData.appendInteger", "perBitData.parseInteger", regexp.MustCompile(`^(\(\(iv>>8\).*)$`), "octets-of-range loop exit test", 1)
-	pair("aper:integer-length-bits", "perRawBitData.appendInteger", "perBitData.parseInteger", regexp.MustCompile(`^(\(\(1<<iv\)>=iv\))$`), "bit width of the length field", 1)
+	// the loop-shaped clones are compared textually only where R3.agree could not decide them semantically
+	if !cvDecided {
+		pair("aper:constraint-value-bit-width", "perRawBitData.appendConstraintValue", "perBitData.parseConstraintValue", regexp.MustCompile(`^(\(iv<=8\)|\(\(1<<iv\)>=p1\))$`), "bit-field width loop (1..8 bits, 2^i >= range)", 2)
+	}
+	if !intDecided {
+		pair("aper:integer-octets-of-range", "perRawBitData.appendInteger", "perBitData.parseInteger", regexp.MustCompile(`^(\(\(iv>>8\).*)$`), "octets-of-range loop exit test", 1)
+	}
+	if !intDecided {
+		pair("aper:integer-length-bits", "perRawBitData.appendInteger", "perBitData.parseInteger", regexp.MustCompile(`^(\(\(1<<iv\)>=iv\))$`), "bit width of the length field", 1)
+	}
 	pair("aper:integer-range-classes", "perRawBitData.appendInteger", "perBitData.parseInteger", regexp.MustCompile(`^\(phi\(.*\)(<=65536|<=0|<0|==1)\)$`), "value-range classes (1, <=0, <0, <=65536)", 2)
 	pair("aper:length-range-guards", "perRawBitData.appendLength", "perBitData.parseLength", regexp.MustCompile(`^(\(p1[<>=]+-?\d+\))$`), "constrained-length range guards", 2)
 	pair("aper:sequence-of-size-guards", "perRawBitData.parseSequenceOf", "perBitData.parseSequenceOf", regexp.MustCompile(`(p2\.size(?:Lower|Upper)Bound<65536)`), "SEQUENCE OF size-bound guards", 2)
@@ -627,7 +635,9 @@ func r4frag(c *core.Ctx) {
 		}
 		lb := calls[0].Block()
 		// the loop: blocks that reach the parseLength block again
-		inLoop := func(b *ssa.BasicBlock) bool { return b == lb && core.Reaches(lb, lb) || (core.Reaches(lb, b) && core.Reaches(b, lb)) }
+		inLoop := func(b *ssa.BasicBlock) bool {
+			return b == lb && core.Reaches(lb, lb) || (core.Reaches(lb, b) && core.Reaches(b, lb))
+		}
 		if !core.Reaches(lb, lb) {
 			c.Fail(R, "aper."+name+":loop", calls[0].Pos(), "the length determinant is read once only: a fragmented string (16K units or more) is cut after its first fragment")
 			continue
